@@ -50,6 +50,27 @@ fn check_output_option(sub: &str, args: &[&str], plain: &Run, out: &str, tree_ou
     let _ = std::fs::remove_file(out);
 }
 
+/// `-o` given as a BARE relative file name (no directory part), the tool started in a scratch directory: same content as the plain run
+fn check_relative_output(sub: &str, args: &[&str], plain: &Run, dir: &str, tree_output: bool, ctx: &str, rep: &mut Report) {
+    if plain.code != Some(0) {
+        return;
+    }
+    let name = format!("rel-out-{}.txt", std::process::id());
+    let mut a: Vec<&str> = args.to_vec();
+    a.push("-o");
+    a.push(&name);
+    let o = Command::new(bin()).args(&a).current_dir(dir).output();
+    let path = format!("{dir}/{name}");
+    let content = std::fs::read_to_string(&path).unwrap_or_else(|_| "<missing>".into());
+    let _ = std::fs::remove_file(&path);
+    let want = if tree_output { plain.stdout.strip_suffix('\n').unwrap_or(&plain.stdout).to_string() } else { plain.stdout.clone() };
+    rep.count(&format!("relative-output:{sub}"));
+    let code = o.as_ref().ok().and_then(|x| x.status.code());
+    if code != Some(0) || content != want {
+        rep.oracle("output-option", &format!("{sub}:bare-relative-file-name"), &format!("{ctx} -o OUT.txt   (a bare file name, resolved against the working directory)"), &format!("exit {code:?} file {:?} expected {:?}", content.chars().take(300).collect::<String>(), want.chars().take(300).collect::<String>()));
+    }
+}
+
 /// `-o` naming the INPUT file itself (an in-place transform): the file afterwards holds what the plain run printed
 fn check_in_place(sub: &str, args_before_file: &[&str], file: &str, args_after_file: &[&str], plain: &Run, ctx: &str, rep: &mut Report) {
     if plain.code != Some(0) {
@@ -345,6 +366,31 @@ pub fn run(thorough: bool, seed: u64, driver: &str, rep: &mut Report) {
         for f in files.iter() { let _ = std::fs::remove_file(f); }
     }
     generate_stream(&dir, &mut rng, if thorough { 120 } else { 18 }, rep);
+    // ---- lengths of wildly different magnitude: a pair of tips that sit together below a very long branch is as far apart as the
+    // short branches between them say — exactly (the lengths are powers of two, the path does not cross the long branch) ----
+    for mi in 0..(if thorough { 40 } else { 6 }) {
+        let big = 2f64.powi(*rng.pick(&[45, 60, 80, 200]));
+        let (a, b) = (2f64.powi(-(rng.range(8, 12) as i32)), 2f64.powi(-(rng.range(5, 9) as i32)));
+        let text = match mi % 3 {
+            0 => format!("((A:{a},B:{b}):{big},C:1,D:2);"),
+            1 => format!("(C:1,((A:{a},B:{b}):{a},E:3):{big},D:2);"),
+            _ => format!("((((A:{a},B:{b}):{big},C:1):{big},D:2):1,E:1);"),
+        };
+        let file = tmp(&dir, &mut k, &text);
+        let r = run_cli(&["distance", &file, "A", "B"]);
+        rep.count("runs:distance-below-a-very-long-branch");
+        rep.case(&format!("tree file: {text}\nphylotree distance FILE A B"), true);
+        let want = format!("Seq1\tSeq2\tDistance\nA\tB\t{}\n", a + b);
+        if r.code != Some(0) || r.stdout != want {
+            rep.oracle("distance", "differs-from-path-walk", &format!("tree file: {text}\nphylotree distance FILE A B"), &format!("exit {:?}\n{}\nexpected\n{want}", r.code, r.stdout));
+        }
+        let r = run_cli(&["matrix", &file]);
+        let cell = r.stdout.lines().find(|l| l.starts_with("B")).and_then(|l| l.split_whitespace().nth(1).map(|x| x.to_string()));
+        if r.code != Some(0) || cell.as_deref().and_then(|x| x.parse::<f64>().ok()) != Some(a + b) {
+            rep.oracle("matrix", "differs-from-library", &format!("tree file: {text}\nphylotree matrix FILE (cell B-A)"), &r.stdout);
+        }
+        let _ = std::fs::remove_file(&file);
+    }
     let n_trees = if thorough { 600 } else { 60 };
     for ti in 0..n_trees {
         let size = rng.range(2, 30);
@@ -485,6 +531,9 @@ pub fn run(thorough: bool, seed: u64, driver: &str, rep: &mut Report) {
             let r = run_cli(&args);
             rep.count("runs:distance");
             check_output_option("distance", &args, &r, &format!("{dir}/o{k}.tsv"), false, &format!("{ctx0}\nphylotree distance FILE {picks:?}"), rep);
+            if ti % 2 == 1 {
+                check_relative_output("distance", &args, &r, &dir, false, &format!("{ctx0}\nphylotree distance FILE {picks:?}"), rep);
+            }
             let dists = leaf_dists(&t);
             let mut want = "Seq1\tSeq2\tDistance\n".to_string();
             let mut expect_fail = false;
@@ -706,6 +755,9 @@ pub fn run(thorough: bool, seed: u64, driver: &str, rep: &mut Report) {
             check_output_option("rescale", &["rescale", &format!("{kf}"), &file], &r, &format!("{dir}/o{k}.nwk"), true, &ctx, rep);
             if ti % 3 == 2 {
                 check_in_place("rescale", &["rescale", &format!("{kf}")], &file, &[], &r, &ctx, rep);
+            }
+            if ti % 3 == 1 {
+                check_relative_output("rescale", &["rescale", &format!("{kf}"), &file], &r, &dir, true, &ctx, rep);
             }
             let mut want = t.clone();
             want.for_each_mut(&mut |x, _, _| x.len = x.len.map(|l| l * kf as f64), true, 0);
